@@ -227,6 +227,18 @@ static void run_c16(void)
     wl_rt *rt = &S.rt;
     wl_rt_start(rt, WL_RT_NO_TOPO2);
     S.nk = plan_range(1, sim_limit("keys", MAXK));
+    if (plan_n(4) == 0) {
+        /* a long-running process has created and deleted many keys before: key ids are drawn
+         * from a process-wide counter that only grows, and the tables index by id */
+        int burn = plan_n(8) ? plan_range(200, 1400) : plan_range(60000, 70000);
+        for (int i = 0; i < burn; i++) {
+            ABT_key k;
+            ABT_OK(ABT_key_create(NULL, &k));
+            ABT_OK(ABT_key_free(&k));
+        }
+        sim_note("burnt-key-ids=%d ", burn);
+        sim_count("c16.runs_with_high_key_ids", 1);
+    }
     {
         /* the keys are created concurrently by the primary and up to two external threads:
          * distinct handles must be distinct keys */
